@@ -232,6 +232,10 @@ def hook_monitor(strategy, hook, ev):
         return
     if hook in ('before', 'after', 'terminate'):
         quiescent_checks(full=(hook == 'terminate' or strategy.index % 50 == 49))
+    elif hook in ('on_open_position', 'on_close_position', 'on_increased_position', 'on_reduced_position'):
+        # inside a fill callback the books must be exact as well (the order being executed is already final there)
+        M['cnt']['callback_active_set_checks'] = M['cnt'].get('callback_active_set_checks', 0) + 1
+        quiescent_checks()
     if hook == 'after':
         inject(M['rng'], 2)
         quiescent_checks()
@@ -262,6 +266,10 @@ def _session(job):
         spec = specgen.random_session(rng, minutes=rng.choice([240, 400, 600]))
     for r in spec['routes']:
         r['script']['observe'] = 'light'
+        if not job.get('liq') and rng.random() < 0.4:
+            # several MARKET exits pending in one flush (the first closes the position, cancel-all meets a queued order)
+            r['script']['update_kinds'] = list(r['script'].get('update_kinds') or []) + ['double_market_exit', 'double_market_exit']
+            r['script']['p_update'] = max(r['script'].get('p_update') or 0.0, 0.2)
     begin()
     M['session'] = True
     M['rng'] = random.Random(job['seed'] + 1)
